@@ -167,12 +167,14 @@ def _fuzz_chunk(args):
 ARGS = ["", "undefined", "null", "NaN", "Infinity", "-Infinity", "-1", "0", "-0", "0.5", "300", "1e21", "5e-324", "2**53", "'5'", "'abc'", "'\\u00e9'", "({})", "[]", "[1,2]", "[[]]",
         "(function(){})", "true", "({valueOf:function(){return 2}})",
         # text that only LOOKS numeric to the host (str.isdigit / int() / float() accept it, the language does not), and very long numerals
-        "'\\u00b2'", "'\\u0663'", "'\\uff11\\uff12'", "'\\u2460'", "'1_0'", "' 12 '", "'\\u0661.5'", "'1'.repeat(5000)", "'0x' + 'f'.repeat(400)", "'0b' + '1'.repeat(1100)", "'9'.repeat(400) + '.5e1'"]
+        "'\\u00b2'", "'\\u0663'", "'\\uff11\\uff12'", "'\\u2460'", "'1_0'", "' 12 '", "'\\u0661.5'", "'1'.repeat(5000)", "'0x' + 'f'.repeat(400)", "'0b' + '1'.repeat(1100)", "'9'.repeat(400) + '.5e1'",
+        # lengths and counts that are legal numbers but would be enormous allocations
+        "1e9", "2147483648", "4294967295", "4294967296", "2**31 - 1"]
 CALLS = (["Math." + m for m in "abs floor ceil round trunc min max pow sqrt sin cos tan asin acos atan atan2 log exp sign imul fround clz32 hypot cbrt log2 log10 expm1 log1p".split()]
          + ["parseInt", "parseFloat", "isNaN", "isFinite", "Number", "String", "Boolean", "Array", "Object", "RegExp", "Error", "Number.isInteger", "Number.parseFloat", "String.fromCharCode",
             "JSON.parse", "JSON.stringify", "Object.keys", "Object.values", "Object.entries", "Object.assign", "Object.create", "Object.getPrototypeOf", "Object.setPrototypeOf",
             "Object.defineProperty", "Object.getOwnPropertyDescriptor", "Array.isArray", "new Array", "new Object", "new Error", "new RegExp", "new Int8Array", "new Uint8ClampedArray",
-            "new Float32Array", "new ArrayBuffer", "new Function", "eval", "Date.now"]
+            "new Float32Array", "new ArrayBuffer", "new Function", "eval", "Date.now", "new Uint8Array", "new Float64Array", "new Int16Array", "Array(3).fill", "new Array(2).concat"]
          + ["'abc'." + m for m in "charAt charCodeAt indexOf lastIndexOf substring slice split toLowerCase trim concat repeat startsWith endsWith includes replace replaceAll match search".split()]
          + ["[3,1,2]." + m for m in "push pop shift unshift join map filter reduce reduceRight forEach indexOf lastIndexOf find findIndex some every concat slice splice reverse includes sort".split()]
          + [recv + "." + m for recv in ("(255)", "NaN", "Infinity", "(-Infinity)", "(5e-324)", "(1.7976931348623157e308)", "(-0)", "(0.1)", "(1e21)", "(-2.5)")
@@ -183,8 +185,13 @@ CALLS = (["Math." + m for m in "abs floor ceil round trunc min max pow sqrt sin 
 
 
 def _api_chunk(calls):
+    import resource
     from microjs import Context
     from microjs.errors import JSError
+    try:        # (an enormous allocation fails with MemoryError -- a host exception, reported -- instead of exhausting the machine)
+        resource.setrlimit(resource.RLIMIT_AS, (4 * 2 ** 30, resource.getrlimit(resource.RLIMIT_AS)[1]))
+    except (ValueError, OSError):
+        pass
     bad = []
     n = 0
     for call in calls:
